@@ -937,7 +937,9 @@ class Node:
             else:
                 new_mapping = value_node
 
-            if isinstance(new_mapping, yaml.MappingNode):
+            if (
+                    isinstance(new_mapping, yaml.MappingNode) and
+                    not Node(new_mapping).has_attribute(key_attribute)):
                 key_key = yaml.ScalarNode(
                         'tag:yaml.org,2002:str', key_attribute,
                         key_node.start_mark, key_node.end_mark)
